@@ -29,7 +29,7 @@ CLAIMED = {
    note=TB + "Closed under the global context. n_jobs independence of the model uses the split_table partition theorem (C10). Pickling of bound methods across real processes is runtime behaviour: exercised by the thorough tier only.",
    technique="Coq proof (list reasoning over a parametric model); in-Coq evaluation of the model on implementation output"),
  'C06': dict(ref='6 C06',
-   text="Coq theorems: filter_candset = positions of the rows whose pair filter_pair keeps, in order (filter_pair arbitrary); OverlapFilter.filter_pair keeps a pair iff both strings non-empty and overlap satisfies comp_op; OverlapFilter.filter_tables lists exactly those pairs once with score = overlap (set tokenizer), also at API level (C06_api_overlap_filter_tables) and for every n_jobs; the regenerated InvertedIndex.build / OverlapFilter.find_candidates refine the model's overlap count. Tie: candset model, fp_overlap_exact_spec, sound_spec/complete_spec evaluated inside Coq on real calls (index labels and columns compared). CODE-LEVEL: the function REGENERATED from the Python source on every run (Gen/WrapperGen.v, FilterWrapperGen.v, MatcherGen.v over the frame model Model/Frame.v) is proved to refine the API model end to end, and the composition is stated directly about the code (Cxx_code_* theorems): for all well-formed frames the returned frame has header_spec and its rows, read at key level, satisfy complete_spec/sound_spec/missing_spec/empty_spec.",
+   text="Coq theorems: filter_candset = positions of the rows whose pair filter_pair keeps, in order (filter_pair arbitrary); OverlapFilter.filter_pair keeps a pair iff both strings non-empty and overlap satisfies comp_op; OverlapFilter.filter_tables lists exactly those pairs once with score = overlap (set tokenizer), also at API level (C06_api_overlap_filter_tables) and for every n_jobs; the regenerated InvertedIndex.build / OverlapFilter.find_candidates refine the model's overlap count. Tie: candset model, fp_overlap_exact_spec, sound_spec/complete_spec evaluated inside Coq on real calls (index labels and columns compared). CODE-LEVEL: the function REGENERATED from the Python source on every run (Gen/WrapperGen.v, FilterWrapperGen.v, MatcherGen.v over the frame model Model/Frame.v) is proved to refine the API model end to end, and the composition is stated directly about the code (Cxx_code_* theorems): for all well-formed frames the returned frame has header_spec and its rows, read at key level, satisfy complete_spec/sound_spec/missing_spec/empty_spec. filter_candset on the generated code: C06_code_candset (exactly the candidate rows not dropped, all columns, original order).",
    note=TB + "Closed under the global context.",
    technique="Coq proof (list reasoning); in-Coq evaluation of models and specs on implementation output"),
  'C08': dict(ref='6 C08',
